@@ -10,12 +10,13 @@ impl XorShift {
     fn below(&mut self, n: u64) -> u64 { self.next() % n }
 }
 // hands out at most `chunks[k]` bytes on the k-th read
-struct RandomChunks { data: Vec<u8>, pos: usize, rng: XorShift }
+struct RandomChunks { data: Vec<u8>, pos: usize, rng: XorShift, first: Option<usize> }
 impl AsyncRead for RandomChunks {
     fn poll_read(mut self: Pin<&mut Self>, _cx: &mut Context<'_>, buf: &mut [u8]) -> Poll<Result<usize, Error>> {
         let left = self.data.len() - self.pos;
         if left == 0 || buf.is_empty() { return Poll::Ready(Ok(0)); }
-        let n = (1 + self.rng.below(97) as usize).min(left).min(buf.len());
+        // `first`: the size of the first chunk is fixed (every split point of the frame start is enumerated, seed C30-c)
+        let n = self.first.take().unwrap_or(1 + self.rng.below(97) as usize).min(left).min(buf.len());
         let p = self.pos;
         buf[..n].copy_from_slice(&self.data[p..p + n]);
         self.pos += n;
@@ -47,15 +48,32 @@ async fn verif_model_header_ex_framing() {
         let mut wire = Vec::new();
         HeaderCodec.write_request(&proto, &mut futures::io::Cursor::new(&mut wire), req.clone()).await.unwrap();
         cases += 1;
-        let mut rd = RandomChunks { data: wire.clone(), pos: 0, rng: XorShift(rng.next() | 1) };
+        let mut rd = RandomChunks { data: wire.clone(), pos: 0, rng: XorShift(rng.next() | 1), first: None };
         match HeaderCodec.read_request(&proto, &mut rd).await {
             Ok(back) => if back != req { println!("WITNESS C30: request {req:?} read back as {back:?} (seed {seed}, round {round})"); panic!("witness"); },
             Err(e) => { println!("WITNESS C30: request {req:?} written by the codec is not readable: {e} (seed {seed}, round {round})"); panic!("witness"); }
         }
+        // the same request with the first chunk of every size 1..=6 (one- and two-byte length delimiters split at every point) and,
+        // every 4th round, a request with a two-byte delimiter (wire length >= 130) instead of the random one
+        {
+            let reqs2 = if round % 4 == 0 { vec![req.clone(), HeaderRequest { amount: 1 + round, data: Some(ReqData::Hash((0..(126 + round % 40) as usize).map(|i| (i % 249) as u8).collect())) }] } else { vec![req.clone()] };
+            for rq in reqs2 {
+                let mut w2 = Vec::new();
+                HeaderCodec.write_request(&proto, &mut futures::io::Cursor::new(&mut w2), rq.clone()).await.unwrap();
+                for k in 1..=6usize.min(w2.len()) {
+                    cases += 1;
+                    let mut rd = RandomChunks { data: w2.clone(), pos: 0, rng: XorShift(rng.next() | 1), first: Some(k) };
+                    match HeaderCodec.read_request(&proto, &mut rd).await {
+                        Ok(back) => if back != rq { println!("WITNESS C30: request {rq:?} read back as {back:?} with a first chunk of {k} bytes"); panic!("witness"); },
+                        Err(e) => { println!("WITNESS C30: request of {} wire bytes is not readable when the first chunk has {k} bytes: {e}", w2.len()); panic!("witness"); }
+                    }
+                }
+            }
+        }
         // a truncated request stream must be an error (a strictly shorter prefix of one frame is never a complete frame)
         if wire.len() > 1 {
             let cut = 1 + rng.below(wire.len() as u64 - 1) as usize;
-            let mut rd = RandomChunks { data: wire[..cut].to_vec(), pos: 0, rng: XorShift(rng.next() | 1) };
+            let mut rd = RandomChunks { data: wire[..cut].to_vec(), pos: 0, rng: XorShift(rng.next() | 1), first: None };
             cases += 1;
             if let Ok(back) = HeaderCodec.read_request(&proto, &mut rd).await { if back == req && cut < wire.len() { println!("WITNESS C30: request truncated to {cut} of {} bytes still read back in full", wire.len()); panic!("witness"); } }
         }
@@ -65,14 +83,14 @@ async fn verif_model_header_ex_framing() {
         let mut wire = Vec::new();
         HeaderCodec.write_response(&proto, &mut futures::io::Cursor::new(&mut wire), resps.clone()).await.unwrap();
         cases += 1;
-        let mut rd = RandomChunks { data: wire.clone(), pos: 0, rng: XorShift(rng.next() | 1) };
+        let mut rd = RandomChunks { data: wire.clone(), pos: 0, rng: XorShift(rng.next() | 1), first: None };
         match HeaderCodec.read_response(&proto, &mut rd).await {
             Ok(back) => if back != resps { println!("WITNESS C30: {} responses read back as {} responses / different content (seed {seed}, round {round})", resps.len(), back.len()); panic!("witness"); },
             Err(e) => { println!("WITNESS C30: responses written by the codec are not readable: {e} (seed {seed}, round {round})"); panic!("witness"); }
         }
         // truncation: what is read back is a strict prefix of the list (or an error), never something else
         let cut = rng.below(wire.len() as u64) as usize;
-        let mut rd = RandomChunks { data: wire[..cut].to_vec(), pos: 0, rng: XorShift(rng.next() | 1) };
+        let mut rd = RandomChunks { data: wire[..cut].to_vec(), pos: 0, rng: XorShift(rng.next() | 1), first: None };
         cases += 1;
         if let Ok(back) = HeaderCodec.read_response(&proto, &mut rd).await {
             if back.len() >= resps.len() || back[..] != resps[..back.len()] { println!("WITNESS C30: stream truncated to {cut} of {} bytes read back as {} responses that are not a strict prefix", wire.len(), back.len()); panic!("witness"); }
@@ -80,7 +98,7 @@ async fn verif_model_header_ex_framing() {
         // garbage
         let junk: Vec<u8> = (0..rng.below(64)).map(|_| rng.next() as u8).collect();
         cases += 1;
-        let r = std::panic::AssertUnwindSafe(async { let mut rd = RandomChunks { data: junk.clone(), pos: 0, rng: XorShift(7) }; let _ = HeaderCodec.read_response(&proto, &mut rd).await; let mut rd = RandomChunks { data: junk.clone(), pos: 0, rng: XorShift(9) }; let _ = HeaderCodec.read_request(&proto, &mut rd).await; });
+        let r = std::panic::AssertUnwindSafe(async { let mut rd = RandomChunks { data: junk.clone(), pos: 0, rng: XorShift(7), first: None }; let _ = HeaderCodec.read_response(&proto, &mut rd).await; let mut rd = RandomChunks { data: junk.clone(), pos: 0, rng: XorShift(9), first: None }; let _ = HeaderCodec.read_request(&proto, &mut rd).await; });
         if futures::FutureExt::catch_unwind(r).await.is_err() { println!("WITNESS C30/C16: the codec panicked on the garbage stream {junk:?}"); panic!("witness"); }
     }
     println!("ENUM-OK cases={cases}");
